@@ -65,18 +65,20 @@ def run(ctx, replay):
     inv = ["GateAgrees", "TreeOK"]
     props = ["DbgSticky", "Isolation"]
     # (a) one logger, every level value: every (logger level, debug mode) pair, whole gate table each
-    corelib.run_core(ctx, config(ALL_LEVELS, 1, ["Set", "DbgMode", "VrbMode"]), inv, props, OBS, rand_count=0, rand_depth=0, rand_loggers=1,
-                     tag="one", key_fn=explain)
+    jobs = []          # the graphs are independent: they run side by side
+    jobs.append(lambda: corelib.run_core(ctx, config(ALL_LEVELS, 1, ["Set", "DbgMode", "VrbMode"]), inv, props, OBS, rand_count=0, rand_depth=0, rand_loggers=1,
+                     tag="one", key_fn=explain))
     # (b) two loggers (default + child): debug mode switched on through either of them or through the
     #     package-level SetLevel, observed on both
     lv2 = [5, 4, 7] if ctx.quick() else [5, 4, 7, 8, 2, 13]
-    corelib.run_core(ctx, config(lv2, 2, ["Set", "With", "PkgSetLevel", "DbgMode"]), inv, props, OBS,
+    jobs.append(lambda: corelib.run_core(ctx, config(lv2, 2, ["Set", "With", "PkgSetLevel", "DbgMode"]), inv, props, OBS,
                      rand_count=15 if ctx.quick() else 150, rand_depth=12 if ctx.quick() else 25,
-                     rand_loggers=4 if ctx.quick() else 6, rand_cfg=wide, tag="two", key_fn=explain)
+                     rand_loggers=4 if ctx.quick() else 6, rand_cfg=wide, tag="two", key_fn=explain))
     # (c) the registry is part of the state: levels registered (or refused) in the middle of a history, one
     #     fresh process per behaviour
-    corelib.run_core(ctx, config_reg(ctx.quick()), inv, props + ["RegistryLocal"], OBS, rand_count=10 if ctx.quick() else 200,
-                     rand_depth=8 if ctx.quick() else 12, rand_loggers=1, tag="reg", key_fn=explain)
+    jobs.append(lambda: corelib.run_core(ctx, config_reg(ctx.quick()), inv, props + ["RegistryLocal"], OBS, rand_count=10 if ctx.quick() else 200,
+                     rand_depth=8 if ctx.quick() else 12, rand_loggers=1, tag="reg", key_fn=explain))
+    corelib.run_jobs(jobs)
     ctx.assumptions += ["graphs (a) and (b): custom levels are registered once at process start; graph (c) registers them "
                         "in the middle of a history (names, tags and marshalling of registered levels are C17)",
                         "Panic/Fatal rows are issued with the no-interrupt flag set so that the call returns",
